@@ -168,7 +168,7 @@ def judge(script, impl):
             t = item.split()
             if t[0] == "ok" and t[1] in ("ip", "ra"):
                 fpv = int(t[4][3:], 16)
-                if 0x7fff0000 - 0x1000000 <= fpv <= 0x7fff0000 + 0x1000:      # a pointer into the (original) stack moves with it
+                if 0x7fff0000 - 0x1000000 <= fpv <= 0x7fff0000 + 0x100000:      # a pointer into the (original) stack moves with it
                     fpv = (fpv + ds) & M64
                 av = int(t[2], 16)
                 code = m.get("code")
@@ -176,7 +176,10 @@ def judge(script, impl):
                     av = (av + dm) & M64
                 return "ok %s 0x%x sp=0x%x fp=0x%x" % (t[1], av, (int(t[3][3:], 16) + ds) & M64, fpv)
             if t[0] == "err" and t[1] == "CouldNotReadStack":
-                return "err CouldNotReadStack 0x%x" % ((int(t[2], 16) + ds) & M64)
+                ea = int(t[2], 16)
+                if 0x7fff0000 - 0x1000000 <= ea <= 0x7fff0000 + 0x100000:      # an address of the (original) stack moves with it;
+                    ea = (ea + ds) & M64                                      # a garbage pointer taken from a register does not
+                return "err CouldNotReadStack 0x%x" % ea
             return item
         ia = [shift(x.strip()) for x in a[5:].split("|")]
         ib = [x.strip() for x in b[5:].split("|")]
